@@ -42,6 +42,7 @@ Inductive op :=
   | OPartitions | OP2L (b : bits) | ORf (k : nat) | ORfNorm (k : nat) | OWrf (k : nat) | OKf (k : nat)
   | OCmpTopo (k : nat) | OCmpBranch (k : nat) (tips : bool) | ODm | ODmr | ODmStore
   | OToNewick | OToFmt (f : nformat) | OToNexus | OLayout | ORtNewick | ORtFmt (f : nformat) | OReparse (k : nat)
+  | OSetName (i : nat) (nm : str) | ORenameByName (old nm : str) | OSetPedge (i : nat) (e : option xq)
   | OTril (n i j : nat) | ORowvec (n k : nat) | OTrilN (i j : N) | ORowvecN (k : N)
   | OMSel (k : nat) | OMNew (taxa : list str) (vals : list xq) | OMWithSize (n : nat)
   | OMSetTaxa (taxa : list str) | OMGet (a b : str) | OMSet (a b : str) (v : xq) | OMTaxaIndex (a : str)
@@ -307,6 +308,24 @@ Definition run_op (s : st) (o : op) : res * st :=
           | Ok a' => (res_of (to_newick a') (fun r2 => [TRs r] ++ dump_arena a' ++ [TRs r2]), s)
           | other => (res_of other (fun _ => []), s)
           end
+      | other => (res_of other (fun _ => []), s)
+      end
+  | OSetName i nm =>
+      (* tree.get_mut(&i)?.set_name(nm) *)
+      match upd a i (fun x => set_nname x (Some nm)) with
+      | Ok a' => (ROk [], set_cur_arena s a')
+      | other => (res_of other (fun _ => []), s)
+      end
+  | ORenameByName old nm =>
+      (* tree.get_by_name_mut(old).map(|n| n.set_name(nm)) : first slot carrying that name *)
+      match get_by_name a old with
+      | Some n => (ROk [TNat (nid n)], set_cur_arena s (replace_nth (nid n) (set_nname n (Some nm)) a))
+      | None => (ROk [TNone], set_cur_arena s a)
+      end
+  | OSetPedge i e =>
+      (* direct write to the pub field: tree.get_mut(&i)?.parent_edge = e (the parent-side record is NOT updated) *)
+      match upd a i (fun x => set_npedge x e) with
+      | Ok a' => (ROk [], set_cur_arena s a')
       | other => (res_of other (fun _ => []), s)
       end
   | OReparse k =>
